@@ -96,7 +96,7 @@ def build_universe(seed, tier):
     n_types, depth, n_defs = tier_params(tier)
     u = Universe(seed, n_types=n_types, max_depth=depth, n_defs=n_defs).build()
     c = Universe(CORPUS_SEED, n_types=40, max_depth=3, n_defs=10, prefix='K').build()
-    from universe import stress_defs, Adt, Seq, Array, Sum
+    from universe import stress_defs, Adt, Seq, Array, Sum, Str, Phantom
     sd = stress_defs('K')
     st = [Adt(d, [], []) for d in sd]
     st += [Seq('vec', st[0]), Seq('vec', st[1]), Array(st[2], 2), Seq('bs', st[4]), Sum('opt', [st[5]]), Seq('vec', st[7])]
@@ -169,8 +169,9 @@ def build_universe(seed, tier):
         prs = [(ids[0], ids[1]), (ids[0], ids[2]), (ids[2], ids[3]), (ids[2], ids[4]), (ids[4], ids[5]), (ids[0], ids[6])]
         for (a, b), k in zip(prs, kinds):
             u.mutant_pairs.append((a, b, k))
+    # arrays whose items own heap memory in both modes (partially built arrays must be released on error and on panic)
+    add(Array(Seq('bs', Str()), 3)); add(Array(Seq('vec', Seq('vec', Prim('u16'))), 2))
     # generic arguments: phantom data of different types; all instances of one generic definition, pairwise
-    from universe import Phantom, Str
     ph = [add(Phantom(Prim('u8'))), add(Phantom(Prim('i8'))), add(Phantom(Str())), add(Seq('vec', Phantom(Prim('u8')))), add(Seq('vec', Phantom(Str())))]
     for (a, b) in ((ph[0], ph[1]), (ph[0], ph[2]), (ph[3], ph[4])):
         u.mutant_pairs.append((a, b, 'phantom-argument-changed'))
